@@ -389,7 +389,12 @@ fn record_one(rng: &mut Rng, case: u64, steps: usize, init: usize, extras: bool,
             9 if extras && rng.chance(1, 2) => {
                 // a new child of a kind outside the placement model: USER_RIGHTS or IF_DATA
                 let module = &mut rec.a2l.project.module[0];
-                if rng.chance(1, 2) {
+                if module.variant_coding.is_none() && rng.chance(1, 3) {
+                    module.variant_coding = Some(a2lfile::VariantCoding::new());
+                    ev.insert("ev".into(), json!("push_new"));
+                    ev.insert("kind".into(), json!("VARIANT_CODING"));
+                    ev.insert("name".into(), json!(""));
+                } else if rng.chance(1, 2) {
                     let id = format!("newuser{}", rec.next_rank);
                     rec.next_rank += 1;
                     module.user_rights.push(a2lfile::UserRights::new(id.clone()));
